@@ -16,7 +16,12 @@ def run(chk):
         "decision callbacks (classifier, strategy, sleep handler, sleeper) do not raise ordinary exceptions; attempt_timeout_s=None",
         "Policy's breaker events and the timeline's elapsed_s stamps are tied by correspondence/oracle only (not by a theorem)",
     ]
-    rc.run_runner_check(chk, "C14", "proj_C14", OPTS)
+    ok = chk.check_theorems()
+    rc.run_runner_check(chk, "C14", "proj_C14", OPTS, theorems_ok=ok)
+    # breaker transitions and rejections reported by Policy: attempt 0, breaker state, class on failures
+    import policy_common as pc
+    pc.run_policy_check(chk, "C14", "proj_P14", {"p_metric": 0.9, "p_log": 0.7, "p_no_retry": 0.2}, oracle_pid="C14P", theorems_ok=ok,
+                        cov_key="breaker_events", n_quick=200, n_thorough=3000)
 
 
 def replay(path):
